@@ -302,7 +302,15 @@ def rule_markerstate(ctx):
             return False
         k = op_const(o)
         if k is not None:
-            return "v" in k and int(k["v"]) == 0
+            if "v" in k:
+                return int(k["v"]) == 0
+            # `const { None }`: the inline constant's own body must produce the unset value
+            g = jbr.fns.get(k.get("item")) if k.get("item") else None
+            if g is None or g.kind != "InlineConst":
+                return False
+            rets = [s2 for blk in g.blocks if not blk[2] for s2 in blk[0] if s2[0] == "=" and s2[1] == [0]]
+            return bool(rets) and all(s2[2][0] == "agg" and s2[2][1][0] == "adt" and s2[2][1][1] == "core::option::Option"
+                                      and s2[2][1][2] == "None" for s2 in rets)
         l = op_local(o)
         d = defs.single(l) if l is not None else None
         if not d or d[2] != "assign":
@@ -374,20 +382,7 @@ def rule_layout(ctx):
         return
     f, st = cons
     ctx.seen(f)
-    sym = Sym(f)
-    defs = sym.defs
     names = [x[0] for x in adt["variants"][0]["fields"]]
-
-    def terms(o):
-        alts = sym.operand(o)
-        if len(alts) != 1:
-            return None
-        e = next(iter(alts))
-        if e == "0":
-            return ()
-        if isinstance(e, tuple) and e[0] == "+":
-            return tuple(sorted(show(x) for x in e[1]))
-        return (show(e),)
 
     def add(a, b):
         if a is None or b is None:
@@ -396,66 +391,115 @@ def rule_layout(ctx):
             return None
         return tuple(sorted(a + b))
 
-    memo = {}
+    class Carver:
+        """follows byte slices of one function symbolically; `bind` gives the caller's view of the arguments of a helper"""
 
-    def slice_of(l, field=None, depth=0):
-        """(start terms, end terms | 'END') of the byte slice held by local l (or by field `field` of the tuple l), relative to `data`"""
-        key = (l, field)
-        if key in memo:
-            return memo[key]
-        memo[key] = None
-        res = None
-        if depth > 24:
-            return None
-        if 1 <= l <= f.argc and field is None:
-            res = ((), "END") if f.local_name(l) == "data" or f.local_ty(l) in ("&[u8]", "&'jbrd [u8]") else None
-            # several &[u8] parameters exist (icc, exif, xmp): only the one named `data` / first raw slice is the data section
-            if f.local_name(l) not in (None, "data"):
-                res = None
-        else:
-            for d in defs.of(l):
-                if f.is_cleanup(d[0]):
-                    continue
-                if d[2] == "assign":
-                    rv = d[3][2]
-                    if rv[0] in ("use", "cast"):
-                        pl = op_place(rv[1] if rv[0] == "use" else rv[2])
-                        if pl is None:
-                            continue
-                        fl = [e for e in pl[1:] if isinstance(e, list) and e[0] == "."]
-                        res = slice_of(pl[0], fl[-1][1] if fl else field, depth + 1)
-                    elif rv[0] == "ref":
-                        res = slice_of(rv[2][0], field, depth + 1)
-                elif d[2] == "call":
-                    t = d[3]
-                    c = callee(t)
-                    nm = c["fn"] if c else ""
-                    sh = nm.split("::<")[0]
-                    if nm.split("::")[-1].startswith("split_at") and len(t[2]) == 2:
-                        base = slice_of(op_local(t[2][0]), None, depth + 1)
-                        n = terms(t[2][1])
-                        if base and n is not None:
-                            mid = add(base[0], n)
-                            res = (base[0], mid) if field == 0 else ((mid, base[1]) if field == 1 else None)
-                    elif sh.endswith("ops::index::Index::index") and len(t[2]) == 2:
-                        base = slice_of(op_local(t[2][0]), None, depth + 1)
-                        rl = op_local(t[2][1])
-                        rd = defs.single(rl) if rl is not None else None
-                        if base and rd and rd[2] == "assign" and rd[3][2][0] == "agg":
-                            kind = rd[3][2][1][1]
-                            ops = rd[3][2][2]
-                            if kind.endswith("RangeTo"):
-                                res = (base[0], add(base[0], terms(ops[0])))
-                            elif kind.endswith("RangeFrom"):
-                                res = (add(base[0], terms(ops[0])), base[1])
-                            elif kind.endswith("Range"):
-                                res = (add(base[0], terms(ops[0])), add(base[0], terms(ops[1])))
-                    elif nm.split("::")[-1] in ("deref", "as_ref", "as_slice", "borrow", "get_ref") and t[2]:
-                        res = slice_of(op_local(t[2][0]), field, depth + 1)
-                if res is not None:
-                    break
-        memo[key] = res
-        return res
+        def __init__(self, fn, bind=None, level=0):
+            self.f = fn
+            self.sym = Sym(fn)
+            self.defs = self.sym.defs
+            self.bind = bind
+            self.level = level
+            self.memo = {}
+
+        def terms(self, o):
+            alts = self.sym.operand(o)
+            if len(alts) != 1:
+                return None
+            e = next(iter(alts))
+            if e == "0":
+                return ()
+            raw = tuple(show(x) for x in e[1]) if isinstance(e, tuple) and e[0] == "+" else (show(e),)
+            out = []
+            for x in raw:
+                if self.bind is not None and x.startswith("arg") and x[3:].isdigit():
+                    bv = self.bind.get(int(x[3:]))
+                    if not bv or bv[0] != "terms" or bv[1] is None:
+                        return None
+                    out.extend(bv[1])
+                else:
+                    out.append(x)
+            return tuple(sorted(out))
+
+        def slice_of(self, l, field=None, depth=0):
+            """(start terms, end terms | 'END') of the byte slice held by local l (or by field `field` of the aggregate l), relative to `data`"""
+            f, defs = self.f, self.defs
+            key = (l, field)
+            if key in self.memo:
+                return self.memo[key]
+            self.memo[key] = None
+            res = None
+            if depth > 24:
+                return None
+            if 1 <= l <= f.argc and field is None:
+                if self.bind is not None:
+                    bv = self.bind.get(l)
+                    res = bv[1] if bv and bv[0] == "slice" else None
+                else:
+                    res = ((), "END") if f.local_name(l) == "data" or f.local_ty(l) in ("&[u8]", "&'jbrd [u8]") else None
+                    # several &[u8] parameters exist (icc, exif, xmp): only the one named `data` / first raw slice is the data section
+                    if f.local_name(l) not in (None, "data"):
+                        res = None
+            else:
+                for d in defs.of(l):
+                    if f.is_cleanup(d[0]):
+                        continue
+                    if d[2] == "assign":
+                        rv = d[3][2]
+                        if rv[0] in ("use", "cast"):
+                            pl = op_place(rv[1] if rv[0] == "use" else rv[2])
+                            if pl is None:
+                                continue
+                            fl = [e for e in pl[1:] if isinstance(e, list) and e[0] == "."]
+                            res = self.slice_of(pl[0], fl[-1][1] if fl else field, depth + 1)
+                        elif rv[0] == "ref":
+                            fl = [e for e in rv[2][1:] if isinstance(e, list) and e[0] == "."]
+                            res = self.slice_of(rv[2][0], fl[-1][1] if fl else field, depth + 1)
+                        elif rv[0] == "agg" and field is not None and rv[1][0] in ("adt", "tuple") and field < len(rv[2]):
+                            ol = op_local(rv[2][field])
+                            res = self.slice_of(ol, None, depth + 1) if ol is not None else None
+                    elif d[2] == "call":
+                        t = d[3]
+                        c = callee(t)
+                        nm = c["fn"] if c else ""
+                        sh = nm.split("::<")[0]
+                        g = ctx.prog.fn(c.get("res") or nm) if c else None
+                        if nm.split("::")[-1].startswith("split_at") and len(t[2]) == 2:
+                            base = self.slice_of(op_local(t[2][0]), None, depth + 1)
+                            n = self.terms(t[2][1])
+                            if base and n is not None:
+                                mid = add(base[0], n)
+                                res = (base[0], mid) if field == 0 else ((mid, base[1]) if field == 1 else None)
+                        elif sh.endswith("ops::index::Index::index") and len(t[2]) == 2:
+                            base = self.slice_of(op_local(t[2][0]), None, depth + 1)
+                            rl = op_local(t[2][1])
+                            rd = defs.single(rl) if rl is not None else None
+                            if base and rd and rd[2] == "assign" and rd[3][2][0] == "agg":
+                                kind = rd[3][2][1][1]
+                                ops = rd[3][2][2]
+                                if kind.endswith("RangeTo"):
+                                    res = (base[0], add(base[0], self.terms(ops[0])))
+                                elif kind.endswith("RangeFrom"):
+                                    res = (add(base[0], self.terms(ops[0])), base[1])
+                                elif kind.endswith("Range"):
+                                    res = (add(base[0], self.terms(ops[0])), add(base[0], self.terms(ops[1])))
+                        elif nm.split("::")[-1] in ("deref", "as_ref", "as_slice", "borrow", "get_ref") and t[2]:
+                            res = self.slice_of(op_local(t[2][0]), field, depth + 1)
+                        elif g is not None and g.path.startswith("jxl_jbr::") and self.level < 3:
+                            # a helper of this crate that carves the section: evaluate its body with the arguments as seen here
+                            bind = {}
+                            for i, a in enumerate(t[2]):
+                                al = op_local(a)
+                                sl = self.slice_of(al, None, depth + 1) if al is not None and "[u8]" in f.local_ty(al) else None
+                                bind[i + 1] = ("slice", sl) if sl is not None else ("terms", self.terms(a))
+                            res = Carver(g, bind, self.level + 1).slice_of(0, field)
+                    if res is not None:
+                        break
+            self.memo[key] = res
+            return res
+
+    root = Carver(f)
+    slice_of = root.slice_of
 
     got = {}
     for fld in ("app_data", "com_data", "intermarker_data", "tail_data"):
